@@ -703,3 +703,384 @@ Proof. cbn. intros [<-|[<-|[<-|[<-|[<-|[]]]]]]; reflexivity. Qed.
 
 Lemma up_orderly_refuted : up_orderly KHttps = false /\ up_orderly KH3 = false /\ up_orderly KQuic = false.
 Proof. repeat split. Qed.
+
+(* ---- C18_no_leak (pipeline): an open connection is either still in the open pool, or marked closed with a
+   closer about to close the net.Conn, or removed from the pool with a closer about to run ---- *)
+Definition has_stage (tasks : list ptask) (st : pstage) : Prop :=
+  exists t k, nth_error tasks t = Some k /\ pt_stage k = st.
+
+Definition kc (closed : bool) (tasks : list ptask) (c : nat) (k : pconn) : Prop :=
+  pc_open k = true ->
+    (pc_closed k = false /\ pc_where k <> PNone /\ closed = false) \/
+    (pc_closed k = true /\ has_stage tasks (PsCloseB c)) \/
+    (pc_closed k = false /\ has_stage tasks (PsCloseA c)).
+
+Definition rel2inv (conns : list pconn) (k : ptask) : Prop :=
+  match pt_stage k with
+  | PsRel2 c _ true => exists kc, nth_error conns c = Some kc /\ pc_closed kc = true
+  | _ => True
+  end.
+
+Definition KInv (s : pstate) : Prop :=
+  (forall c k, nth_error (ps_conns s) c = Some k -> kc (ps_closed s) (ps_tasks s) c k) /\
+  Forall (rel2inv (ps_conns s)) (ps_tasks s).
+
+Definition closers_le (a b : list ptask) : Prop :=
+  forall c, (has_stage a (PsCloseA c) -> has_stage b (PsCloseA c)) /\ (has_stage a (PsCloseB c) -> has_stage b (PsCloseB c)).
+
+Lemma kc_mono cl a b c k : closers_le a b -> kc cl a c k -> kc cl b c k.
+Proof.
+  intros H K Ho. destruct (K Ho) as [K1|[[K1 K2]|[K1 K2]]]; [left; exact K1|right; left|right; right];
+    (split; [exact K1|]); apply H; exact K2.
+Qed.
+
+Lemma has_stage_snoc_l a x st : has_stage a st -> has_stage (a ++ [x]) st.
+Proof. intros (t & k & E & S). exists t, k. split; [|exact S]. rewrite nth_error_app1; [exact E|eapply nth_error_some_lt; eauto]. Qed.
+
+Lemma has_stage_snoc_r a x : has_stage (a ++ [x]) (pt_stage x).
+Proof. exists (length a), x. split; [|reflexivity]. rewrite nth_error_app2 by lia. now rewrite Nat.sub_diag. Qed.
+
+Lemma closers_le_snoc a x : closers_le a (a ++ [x]).
+Proof. intros c. split; apply has_stage_snoc_l. Qed.
+
+Lemma has_stage_upd_other a t k0 x st :
+  nth_error a t = Some k0 -> pt_stage k0 <> st -> has_stage a st -> has_stage (upd a t x) st.
+Proof.
+  intros E Hne (t' & k & E' & S). exists t', k. split; [|exact S].
+  rewrite nth_error_upd_neq; [exact E'|]. intros ->. rewrite E in E'. inversion E'; subst. contradiction.
+Qed.
+
+Lemma has_stage_upd_same a t x : t < length a -> has_stage (upd a t x) (pt_stage x).
+Proof. intros H. exists t, x. split; [now apply nth_error_upd_eq|reflexivity]. Qed.
+
+Definition not_closer (st : pstage) : Prop := (forall c, st <> PsCloseA c) /\ (forall c, st <> PsCloseB c).
+
+Lemma closers_le_upd a t k0 x : nth_error a t = Some k0 -> not_closer (pt_stage k0) -> closers_le a (upd a t x).
+Proof. intros E [HA HB] c. split; apply (has_stage_upd_other _ _ _ _ _ E); auto. Qed.
+
+Lemma closers_le_refl a : closers_le a a.
+Proof. intros c; split; auto. Qed.
+
+Definition closed_mono (a b : list pconn) : Prop :=
+  forall c k, nth_error a c = Some k -> pc_closed k = true -> exists k', nth_error b c = Some k' /\ pc_closed k' = true.
+
+Lemma rel2inv_mono a b k : closed_mono a b -> rel2inv a k -> rel2inv b k.
+Proof.
+  intros H. unfold rel2inv. destruct (pt_stage k); auto. destruct wasclosed; auto.
+  intros (kc0 & E & C). eapply H; eauto.
+Qed.
+
+Lemma closed_mono_upd a c0 k0 k' :
+  nth_error a c0 = Some k0 -> (pc_closed k0 = true -> pc_closed k' = true) -> closed_mono a (upd a c0 k').
+Proof.
+  intros E H c k Ec Cc. rewrite nth_error_upd. destruct (Nat.eqb_spec c0 c) as [->|]; cbn [andb].
+  - assert (c <? length a = true) as -> by (apply Nat.ltb_lt; eapply nth_error_some_lt; eauto).
+    exists k'. split; [reflexivity|]. apply H. rewrite E in Ec. inversion Ec; subst. exact Cc.
+  - exists k. auto.
+Qed.
+
+Lemma closed_mono_snoc a x : closed_mono a (a ++ [x]).
+Proof. intros c k E C. exists k. split; [|exact C]. rewrite nth_error_app1; [exact E|eapply nth_error_some_lt; eauto]. Qed.
+
+(* state-level building blocks *)
+Lemma KInv_set_task s t k0 x :
+  KInv s -> nth_error (ps_tasks s) t = Some k0 -> not_closer (pt_stage k0) -> rel2inv (ps_conns s) x ->
+  KInv (pset_task s t x).
+Proof.
+  intros [HK HR] E Hn Hx. split; cbn.
+  - intros c k Ec. eapply kc_mono; [eapply closers_le_upd; eauto|]. apply HK; exact Ec.
+  - apply Forall_upd; auto.
+Qed.
+
+Lemma KInv_add_task s x : KInv s -> rel2inv (ps_conns s) x -> KInv (padd_task s x).
+Proof.
+  intros [HK HR] Hx. split; cbn.
+  - intros c k Ec. eapply kc_mono; [apply closers_le_snoc|]. apply HK; exact Ec.
+  - apply Forall_snoc; auto.
+Qed.
+
+Lemma KInv_set_conn s c0 k0 k' :
+  KInv s -> nth_error (ps_conns s) c0 = Some k0 -> (pc_closed k0 = true -> pc_closed k' = true) ->
+  kc (ps_closed s) (ps_tasks s) c0 k' -> KInv (pset_conn s c0 k').
+Proof.
+  intros [HK HR] E Hm Hk. split; cbn.
+  - intros c k Ec. rewrite nth_error_upd in Ec. destruct (Nat.eqb_spec c0 c) as [->|]; cbn [andb] in Ec.
+    + destruct (c <? length (ps_conns s)); [inversion Ec; subst; exact Hk|apply HK; exact Ec].
+    + apply HK; exact Ec.
+  - eapply Forall_impl; [|exact HR]. intros k. apply rel2inv_mono. eapply closed_mono_upd; eauto.
+Qed.
+
+Lemma KInv_add_conn s k' :
+  KInv s -> kc (ps_closed s) (ps_tasks s) (length (ps_conns s)) k' -> KInv (padd_conn s k').
+Proof.
+  intros [HK HR] Hk. split; cbn.
+  - intros c k Ec. destruct (Nat.lt_ge_cases c (length (ps_conns s))) as [Hlt|Hge].
+    + rewrite nth_error_app1 in Ec by exact Hlt. apply HK; exact Ec.
+    + rewrite nth_error_app2 in Ec by exact Hge. destruct (c - length (ps_conns s)) as [|n] eqn:En.
+      * cbn in Ec. inversion Ec; subst. replace c with (length (ps_conns s)) by lia. exact Hk.
+      * destruct n; discriminate.
+  - eapply Forall_impl; [|exact HR]. intros k. apply rel2inv_mono. apply closed_mono_snoc.
+Qed.
+
+Lemma KInv_set_dial s d x : KInv s -> KInv (pset_dial s d x).
+Proof. intros H; exact H. Qed.
+Lemma KInv_set_last s l : KInv s -> KInv (pset_last s l).
+Proof. intros H; exact H. Qed.
+
+(* where-only changes that keep the connection in the pool *)
+Lemma kc_at_inpool cl tasks c k w : w <> PNone -> kc cl tasks c k -> pc_where k <> PNone -> kc cl tasks c (pc_at k w).
+Proof.
+  intros Hw K Hk Ho. cbn in Ho. destruct (K Ho) as [(A & B & C)|[K1|K1]]; [left; cbn; auto|right; left; exact K1|right; right; exact K1].
+Qed.
+
+(* removing a connection from the pool and starting a closer for it (idle trimming) *)
+Lemma KInv_trim_one s c k0 :
+  KInv s -> nth_error (ps_conns s) c = Some k0 ->
+  KInv (padd_task (pset_conn s c (pc_at k0 PNone)) (closer_task c)).
+Proof.
+  intros [HK HR] E. split; cbn.
+  - intros c' k Ec. rewrite nth_error_upd in Ec. destruct (Nat.eqb_spec c c') as [<-|]; cbn [andb] in Ec.
+    + assert (c <? length (ps_conns s) = true) as Hl by (apply Nat.ltb_lt; eapply nth_error_some_lt; eauto).
+      rewrite Hl in Ec. inversion Ec; subst. intros Ho. cbn in Ho.
+      destruct (pc_closed k0) eqn:Ck.
+      * destruct (HK _ _ E Ho) as [(A & _)|[[_ K2]|[A _]]]; try congruence.
+        right; left. split; [exact Ck|]. apply has_stage_snoc_l. exact K2.
+      * right; right. split; [exact Ck|]. apply (has_stage_snoc_r _ (closer_task c)).
+    + eapply kc_mono; [apply closers_le_snoc|]. apply HK; exact Ec.
+  - apply Forall_snoc; [|exact I]. eapply Forall_impl; [|exact HR]. intros k. apply rel2inv_mono.
+    eapply closed_mono_upd; eauto.
+Qed.
+
+Lemma p_trim_KInv : forall trim s s', KInv s -> p_trim s trim = Some s' -> KInv s'.
+Proof.
+  induction trim as [|c tl IH]; intros s s' HI H; cbn in H; [inversion H; subst; exact HI|].
+  destruct (nth_error (ps_conns s) c) as [k0|] eqn:E; [|discriminate].
+  destruct (pc_where k0); try discriminate. eapply IH; [|exact H]. now apply KInv_trim_one.
+Qed.
+
+Lemma p_trim_tasks_prefix : forall trim s s' t k, p_trim s trim = Some s' ->
+  nth_error (ps_tasks s) t = Some k -> nth_error (ps_tasks s') t = Some k.
+Proof.
+  induction trim as [|c tl IH]; intros s s' t k H E; cbn in H; [inversion H; subst; exact E|].
+  destr H. eapply IH; [exact H|]. cbn. rewrite nth_error_app1; [exact E|eapply nth_error_some_lt; eauto].
+Qed.
+
+Lemma p_io_fail_KInv s t k c f :
+  KInv s -> nth_error (ps_tasks s) t = Some k -> pt_stage k = PsHas c f -> KInv (p_io_fail s t k c f).
+Proof.
+  intros HI E S. unfold p_io_fail.
+  assert (Hn : not_closer (pt_stage k)) by (rewrite S; split; intros; discriminate).
+  destruct (pt_res k); [|destruct (_ && _)]; eapply KInv_set_task; eauto; exact I.
+Qed.
+
+Lemma pinit_KInv : KInv p_init.
+Proof. split; [intros c k E; destruct c; discriminate|constructor]. Qed.
+
+Lemma kc_upd_task_other cl a t k0 x c k :
+  nth_error a t = Some k0 -> pt_stage k0 <> PsCloseA c -> pt_stage k0 <> PsCloseB c ->
+  kc cl a c k -> kc cl (upd a t x) c k.
+Proof.
+  intros E HA HB K Ho. destruct (K Ho) as [K1|[[K1 K2]|[K1 K2]]]; [left; exact K1|right; left|right; right];
+    (split; [exact K1|]); eapply has_stage_upd_other; eauto.
+Qed.
+
+Lemma KInv_set_task_same s t k0 x :
+  KInv s -> nth_error (ps_tasks s) t = Some k0 -> pt_stage x = pt_stage k0 -> KInv (pset_task s t x).
+Proof.
+  intros [HK HR] E Hs. split; cbn.
+  - intros c k Ec. eapply kc_mono; [|apply HK; exact Ec].
+    intros c'. split; intros (t' & k' & E' & S'); (destruct (Nat.eq_dec t t') as [<-|Hne];
+      [exists t, x; split; [apply nth_error_upd_eq; eapply nth_error_some_lt; eauto|rewrite E in E'; inversion E'; subst; congruence]
+      |exists t', k'; split; [rewrite nth_error_upd_neq; auto|exact S']]).
+  - apply Forall_upd; auto. pose proof (Forall_nth_error _ _ _ _ HR E) as H0. unfold rel2inv in *. now rewrite Hs.
+Qed.
+
+Lemma closed_mono_pool_close a : closed_mono a (map pc_pool_close a).
+Proof.
+  intros c k E C. exists (pc_pool_close k). split; [now rewrite nth_error_map, E|].
+  unfold pc_pool_close. destruct (pc_where k); auto; rewrite C; exact C.
+Qed.
+
+Theorem p_step_KInv s l s' : KInv s -> p_step s l = Some s' -> KInv s'.
+Proof.
+  intros HI Hs. pose proof HI as [HK HR]. destruct l; cbn in Hs.
+  - (* PSpawn *) inversion Hs; subst. apply KInv_add_task; auto. exact I.
+  - (* PGet *)
+    destruct (nth_error (ps_tasks s) t) as [k|] eqn:Ek; [|discriminate].
+    destruct (pt_stage k) eqn:Sk; try discriminate.
+    assert (Hn : not_closer (pt_stage k)) by (rewrite Sk; split; intros; discriminate).
+    destruct (ps_closed s) eqn:Cl.
+    { inversion Hs; subst. eapply KInv_set_task; eauto. exact I. }
+    assert (HK' : forall c k, nth_error (ps_conns s) c = Some k -> kc (ps_closed s) (ps_tasks s) c k)
+      by (rewrite Cl; exact HK).
+    destruct g as [c|c| |].
+    + destruct (nth_error (ps_conns s) c) as [k0|] eqn:Ec; [|discriminate].
+      destruct (pc_where k0) eqn:W; try discriminate. destruct (pc_closed k0); [discriminate|].
+      inversion Hs; subst. eapply KInv_set_task; [|exact Ek|exact Hn|exact I].
+      eapply KInv_set_conn; eauto. apply kc_at_inpool; [discriminate|apply HK'; exact Ec|rewrite W; discriminate].
+    + destruct (nth_error (ps_conns s) c) as [k0|] eqn:Ec; [|discriminate].
+      destruct (pc_where k0) eqn:W; try discriminate. destruct (pc_closed k0); [discriminate|].
+      inversion Hs; subst. eapply KInv_set_task; [|exact Ek|exact Hn|exact I].
+      eapply KInv_set_conn; eauto. apply kc_at_inpool; [discriminate|apply HK'; exact Ec|rewrite W; discriminate].
+    + destruct (ps_last s) as [d|]; [|discriminate].
+      destruct (nth_error (ps_dials s) d) as [dd|]; [|discriminate].
+      inversion Hs; subst. eapply (KInv_set_task (pset_dial s d _)); eauto. exact I.
+    + inversion Hs; subst.
+      match goal with |- KInv (pset_task ?s0 _ _) => assert (H0 : KInv s0) by (split; cbn; [exact HK|exact HR]) end.
+      eapply KInv_set_task; [exact H0|exact Ek|exact Hn|exact I].
+  - (* PDialOk *) destr Hs. inversion Hs; subst. exact HI.
+  - (* PDialFail *) destr Hs. inversion Hs; subst. exact HI.
+  - (* PDialFinish *)
+    destruct (nth_error (ps_dials s) d) as [dd|] eqn:Ed; [|discriminate].
+    destruct (pd_stage dd); try discriminate.
+    destruct (ps_closed s || match pd_result dd with Some _ => true | None => false end) eqn:Cn; inversion Hs; subst; clear Hs.
+    + destruct ok; [|exact HI]. apply (KInv_set_dial (padd_conn s _)). apply KInv_add_conn; auto. intros Ho; discriminate.
+    + apply orb_false_iff in Cn. destruct Cn as [Cl _].
+      apply KInv_set_last. destruct ok; [|exact HI].
+      apply (KInv_set_dial (padd_conn s _)). apply KInv_add_conn; auto.
+      intros _. left. cbn. split; [reflexivity|]. split; [destruct (pd_queue dd); discriminate|exact Cl].
+  - (* PWake *)
+    destruct (nth_error (ps_tasks s) t) as [k|] eqn:Ek; [|discriminate].
+    destruct (pt_stage k) eqn:Sk; try discriminate.
+    assert (Hn : not_closer (pt_stage k)) by (rewrite Sk; split; intros; discriminate).
+    destr Hs; inversion Hs; subst; eapply KInv_set_task; eauto; exact I.
+  - (* PIoOk *)
+    destruct (nth_error (ps_tasks s) t) as [k|] eqn:Ek; [|discriminate].
+    destruct (pt_stage k) eqn:Sk; try discriminate.
+    assert (Hn : not_closer (pt_stage k)) by (rewrite Sk; split; intros; discriminate).
+    destr Hs; inversion Hs; subst; eapply KInv_set_task; eauto; exact I.
+  - (* PIoClosed *)
+    destruct (nth_error (ps_tasks s) t) as [k|] eqn:Ek; [|discriminate].
+    destruct (pt_stage k) eqn:Sk; try discriminate.
+    destr Hs; inversion Hs; subst. eapply p_io_fail_KInv; eauto.
+  - (* PIoPeerErr *)
+    destruct (nth_error (ps_tasks s) t) as [k|] eqn:Ek; [|discriminate].
+    destruct (pt_stage k) eqn:Sk; try discriminate.
+    destr Hs; inversion Hs; subst. destruct kill; [apply KInv_add_task; [|exact I]|]; eapply p_io_fail_KInv; eauto.
+  - (* PReadErr *) destr Hs. inversion Hs; subst. apply KInv_add_task; auto. exact I.
+  - (* PRel1 *)
+    destruct (nth_error (ps_tasks s) t) as [k|] eqn:Ek; [|discriminate].
+    destruct (pt_stage k) eqn:Sk; try discriminate.
+    assert (Hn : not_closer (pt_stage k)) by (rewrite Sk; split; intros; discriminate).
+    destruct (nth_error (ps_conns s) c) as [k0|] eqn:Ec; [|discriminate].
+    inversion Hs; subst. eapply KInv_set_task; eauto. unfold rel2inv; cbn.
+    destruct (pc_closed k0) eqn:Ck; [eauto|exact I].
+  - (* PRel2 *)
+    destruct (nth_error (ps_tasks s) t) as [k|] eqn:Ek; [|discriminate].
+    destruct (pt_stage k) eqn:Sk; try discriminate.
+    assert (Hn : not_closer (pt_stage k)) by (rewrite Sk; split; intros; discriminate).
+    pose proof (Forall_nth_error _ _ _ _ HR Ek) as Rk. unfold rel2inv in Rk. rewrite Sk in Rk.
+    destruct (nth_error (ps_conns s) c) as [k0|] eqn:Ec; [|discriminate].
+    assert (Hnext : forall cs, rel2inv cs (pwith_stage k (if again then PsStart else PsDone)))
+      by (intros cs; unfold rel2inv; cbn; destruct again; exact I).
+    destruct (pc_where k0) eqn:W.
+    + destruct wasclosed.
+      * destruct trim; [|discriminate]. inversion Hs; subst.
+        eapply KInv_set_task; [|exact Ek|exact Hn|apply Hnext].
+        eapply KInv_set_conn; eauto. intros Ho. cbn in Ho.
+        destruct Rk as (k1 & E1 & C1). inversion E1; subst k1.
+        destruct (HK _ _ Ec Ho) as [(A & _)|[K1|[A _]]]; try congruence. right; left. exact K1.
+      * destruct n as [|[|m]].
+        -- destruct (p_trim (pset_conn s c (pc_at k0 PIdle)) trim) as [s1|] eqn:Tr; [|discriminate].
+           inversion Hs; subst. eapply KInv_set_task; [|eapply p_trim_tasks_prefix; [exact Tr|exact Ek]|exact Hn|apply Hnext].
+           eapply p_trim_KInv; [|exact Tr]. eapply KInv_set_conn; eauto.
+           apply kc_at_inpool; [discriminate|apply HK; exact Ec|rewrite W; discriminate].
+        -- destruct (p_trim (pset_conn s c (pc_at k0 PIdle)) trim) as [s1|] eqn:Tr; [|discriminate].
+           inversion Hs; subst. eapply KInv_set_task; [|eapply p_trim_tasks_prefix; [exact Tr|exact Ek]|exact Hn|apply Hnext].
+           eapply p_trim_KInv; [|exact Tr]. eapply KInv_set_conn; eauto.
+           apply kc_at_inpool; [discriminate|apply HK; exact Ec|rewrite W; discriminate].
+        -- destruct trim; [|discriminate]. inversion Hs; subst.
+           eapply KInv_set_task; [|exact Ek|exact Hn|apply Hnext].
+           eapply KInv_set_conn; eauto. apply kc_at_inpool; [discriminate|apply HK; exact Ec|rewrite W; discriminate].
+    + destruct trim; [|discriminate]. inversion Hs; subst. eapply KInv_set_task; eauto.
+    + destruct trim; [|discriminate]. inversion Hs; subst. eapply KInv_set_task; eauto.
+  - (* PCloseA *)
+    destruct (nth_error (ps_tasks s) t) as [k|] eqn:Ek; [|discriminate].
+    destruct (pt_stage k) eqn:Sk; try discriminate.
+    destruct (nth_error (ps_conns s) c) as [k0|] eqn:Ec; [|discriminate].
+    pose proof (nth_error_some_lt _ _ _ Ek) as Hlt.
+    destruct (pc_closed k0) eqn:Ck; inversion Hs; subst; clear Hs; split; cbn.
+    + intros c' k' Ec'. destruct (Nat.eq_dec c' c) as [->|Hne].
+      * rewrite Ec in Ec'. inversion Ec'; subst k'. intros Ho.
+        destruct (HK _ _ Ec Ho) as [(A & _)|[[K1 K2]|[A _]]]; try congruence.
+        right; left. split; [exact K1|]. eapply has_stage_upd_other; eauto. rewrite Sk. discriminate.
+      * eapply kc_upd_task_other; [exact Ek| | |apply HK; exact Ec']; rewrite Sk; congruence.
+    + apply Forall_upd; auto. exact I.
+    + intros c' k' Ec'. rewrite nth_error_upd in Ec'. destruct (Nat.eqb_spec c c') as [<-|Hne]; cbn [andb] in Ec'.
+      * assert (c <? length (ps_conns s) = true) as Hl by (apply Nat.ltb_lt; eapply nth_error_some_lt; eauto).
+        rewrite Hl in Ec'. inversion Ec'; subst k'. intros _. right; left. split; [reflexivity|].
+        apply (has_stage_upd_same _ _ (pwith_stage k (PsCloseB c))). exact Hlt.
+      * eapply kc_upd_task_other; [exact Ek| | |apply HK; exact Ec']; rewrite Sk; congruence.
+    + apply Forall_upd; [|exact I]. eapply Forall_impl; [|exact HR]. intros k1. apply rel2inv_mono.
+      eapply closed_mono_upd; eauto.
+  - (* PCloseB *)
+    destruct (nth_error (ps_tasks s) t) as [k|] eqn:Ek; [|discriminate].
+    destruct (pt_stage k) eqn:Sk; try discriminate.
+    destruct (nth_error (ps_conns s) c) as [k0|] eqn:Ec; [|discriminate].
+    inversion Hs; subst; clear Hs; split; cbn.
+    + intros c' k' Ec'. rewrite nth_error_upd in Ec'. destruct (Nat.eqb_spec c c') as [<-|Hne]; cbn [andb] in Ec'.
+      * assert (c <? length (ps_conns s) = true) as Hl by (apply Nat.ltb_lt; eapply nth_error_some_lt; eauto).
+        rewrite Hl in Ec'. inversion Ec'; subst k'. intros Ho; discriminate.
+      * eapply kc_upd_task_other; [exact Ek| | |apply HK; exact Ec']; rewrite Sk; congruence.
+    + apply Forall_upd; [|exact I]. eapply Forall_impl; [|exact HR]. intros k1. apply rel2inv_mono.
+      eapply closed_mono_upd; eauto.
+  - (* PGc *)
+    destruct (nth_error (ps_conns s) c) as [k0|] eqn:Ec; [|discriminate].
+    destruct (pc_closed k0) eqn:Ck; [|discriminate]. inversion Hs; subst.
+    eapply KInv_set_conn; eauto. intros Ho. cbn in Ho.
+    destruct (HK _ _ Ec Ho) as [(A & _)|[K1|[A _]]]; try congruence. right; left. exact K1.
+  - (* PCancel *)
+    destruct (nth_error (ps_tasks s) t) as [k|] eqn:Ek; [|discriminate].
+    destruct (pt_stage k) eqn:Sk.
+    all: try (inversion Hs; subst; eapply KInv_set_task_same; [exact HI|exact Ek|cbn; now rewrite Sk]).
+    + destruct (pt_res k).
+      * inversion Hs; subst; eapply KInv_set_task_same; [exact HI|exact Ek|cbn; now rewrite Sk].
+      * destr Hs; inversion Hs; subst.
+        -- eapply KInv_set_task_same; [exact HI|exact Ek|cbn; now rewrite Sk].
+        -- eapply (KInv_set_task (pset_dial s d _)); [exact HI|exact Ek|rewrite Sk; split; intros; discriminate|exact I].
+    + assert (Hn : not_closer (pt_stage k)) by (rewrite Sk; split; intros; discriminate).
+      destruct (pt_res k); inversion Hs; subst; eapply KInv_set_task; eauto; exact I.
+  - (* PClose *)
+    destruct (ps_closed s) eqn:Cl; inversion Hs; subst; [exact HI|]. split; cbn.
+    + intros c k Ec. rewrite nth_error_map in Ec. destruct (nth_error (ps_conns s) c) as [k0|] eqn:E0; [|discriminate].
+      cbn in Ec. inversion Ec; subst k. intros Ho. unfold pc_pool_close in *.
+      destruct (pc_where k0) eqn:W.
+      * destruct (pc_closed k0) eqn:Ck; [|cbn in Ho; discriminate].
+        destruct (HK _ _ E0 Ho) as [(A & _)|[K1|[A _]]]; try congruence. right; left. exact K1.
+      * destruct (pc_closed k0) eqn:Ck; [|cbn in Ho; discriminate].
+        destruct (HK _ _ E0 Ho) as [(A & _)|[K1|[A _]]]; try congruence. right; left. exact K1.
+      * destruct (HK _ _ E0 Ho) as [(_ & B & _)|[K1|K1]]; [congruence|right; left; exact K1|right; right; exact K1].
+    + eapply Forall_impl; [|exact HR]. intros k1. apply rel2inv_mono. apply closed_mono_pool_close.
+Qed.
+
+Theorem p_run_KInv ls : forall s s', KInv s -> p_run s ls = Some s' -> KInv s'.
+Proof.
+  induction ls as [|l ls IH]; intros s s' HI H; cbn [p_run] in H; [inversion H; subst; exact HI|].
+  destruct (p_step s l) as [s1|] eqn:E; [|discriminate]. eapply IH; [|exact H]. eapply p_step_KInv; eauto.
+Qed.
+
+Lemma p_no_leak ls s :
+  p_run p_init ls = Some s -> ps_closed s = true ->
+  forall c k, nth_error (ps_conns s) c = Some k -> pc_open k = true ->
+    (pc_closed k = true /\ has_stage (ps_tasks s) (PsCloseB c)) \/
+    (pc_closed k = false /\ has_stage (ps_tasks s) (PsCloseA c)).
+Proof.
+  intros H Cl c k E Ho. assert (KInv s) as [HK _] by (eapply p_run_KInv; [apply pinit_KInv|exact H]).
+  destruct (HK _ _ E Ho) as [(_ & _ & C)|[K1|K1]]; [congruence|left; exact K1|right; exact K1].
+Qed.
+
+(* the pending closers are enabled and close the connection: PsCloseB in one step, PsCloseA in two *)
+Lemma p_closer_progress s t k c k0 :
+  nth_error (ps_tasks s) t = Some k -> nth_error (ps_conns s) c = Some k0 ->
+  (pt_stage k = PsCloseB c ->
+     exists s', p_step s (PCloseB t) = Some s' /\ exists k', nth_error (ps_conns s') c = Some k' /\ pc_open k' = false) /\
+  (pt_stage k = PsCloseA c -> pc_closed k0 = false ->
+     exists s', p_run s [PCloseA t; PCloseB t] = Some s' /\ exists k', nth_error (ps_conns s') c = Some k' /\ pc_open k' = false).
+Proof.
+  intros Ek Ec. pose proof (nth_error_some_lt _ _ _ Ek) as Ht. pose proof (nth_error_some_lt _ _ _ Ec) as Hc. split.
+  - intros Sk. cbn. rewrite Ek, Sk, Ec. eexists. split; [reflexivity|]. cbn.
+    eexists. split; [apply nth_error_upd_eq; exact Hc|reflexivity].
+  - intros Sk Ck. cbn [p_run p_step]. rewrite Ek, Sk, Ec, Ck. cbn [pset_task pset_conn ps_tasks ps_conns].
+    rewrite nth_error_upd_eq by exact Ht. cbn [pt_stage pwith_stage]. rewrite nth_error_upd_eq by exact Hc.
+    eexists. split; [reflexivity|]. cbn. eexists. split; [apply nth_error_upd_eq; rewrite upd_length; exact Hc|reflexivity].
+Qed.
